@@ -323,8 +323,8 @@ def run(ck):
     expr = so[0].args[0]
     nowp = rcm.node.args.args[1].arg
     member_texts = {}
-    for x in walk_shallow(expr):
-        if isinstance(x, ast.Compare) and len(x.ops) == 1 and isinstance(x.ops[0], ast.In):
+    for x in [y for st_ in rcm.node.body for y in ast.walk(st_)]:
+        if isinstance(x, ast.Compare) and len(x.ops) == 1 and isinstance(x.ops[0], (ast.In, ast.NotIn)):
             member_texts[norm(x.comparators[0])] = (norm(x), norm(x.left))
     ok_ops = set(member_texts) == {'self._times', 'self._dates', 'self._weekdays'} and \
         member_texts['self._times'][1] == f'{nowp}.time()' and \
@@ -350,11 +350,19 @@ def run(ck):
             for member in itertools.product((False, True), repeat=3):
                 if any(m_ and not g_ for m_, g_ in zip(member, given)):
                     continue        # membership in an absent set is meaningless
-                env = {'self._is_configured()': any(given)}
+                # the whole body is run (whatever its layout: one expression, an if/elif chain, a
+                # flag): the left operands are opaque tokens, the configured sets contain the token
+                # or not, and the argument of set_output is recorded
+                from sa.minieval import MiniEval
+                env = {'self._is_configured()': any(given), 'self._is_configured': lambda given=given: any(given)}
+                outv = []
+                env['self.set_output'] = lambda v, outv=outv: outv.append(v)
                 for key, g_, m_ in zip(('self._times', 'self._dates', 'self._weekdays'), given, member):
-                    env[key] = tok if g_ else None
-                    env[member_texts[key][0]] = m_
-                got = Interp(R5, env, 'truthiness').ev(expr)
+                    left = member_texts[key][1]
+                    env[left] = ('TOKEN', key)
+                    env[key] = ({('TOKEN', key)} if m_ else set()) if g_ else None
+                res = MiniEval(R5, env).run(rcm.node.body)
+                got = outv[0] if (res[0] == 'return' and len(outv) == 1) else None
                 ck.abstract_cases += 1
                 want = any(given) and all((not g_) or m_ for g_, m_ in zip(given, member))
                 ck.ob(R5, f"{rcm.fid} :: given={given} member={member}", bool(got) == want,
